@@ -317,8 +317,10 @@ def thorough(prop, mod, ctx, say):
     # behaviour-preserving refactorings written by independent agents, applied where they touch this property's code
     AREA = {"conn": ("C01", "C02", "C03", "C04", "C05", "C06", "C07", "C08", "C10", "C14"), "packets": ("C04", "C06", "C08", "C09"),
             "listener": ("C13", "C14", "C15", "C16", "C17"), "adapters": ("C11", "C12", "C18", "C19", "C20")}
-    for pth in sorted(glob.glob(os.path.join(VERIF, "selftest", "benign_agents", "*.diff"))):
-        if prop in AREA.get(os.path.basename(pth).split("_")[0], ()):
+    AREA["codec"] = ("C01", "C02", "C04", "C05", "C06", "C08", "C09", "C10")
+    import re as _re
+    for pth in sorted(glob.glob(os.path.join(VERIF, "selftest", "benign_agents*", "*.diff"))):
+        if prop in AREA.get(_re.sub(r"\d+$", "", os.path.basename(pth).split("_")[0]), ()):
             benign.append(pth)
     res = {"mutants": {}, "benign": {}, "stale": []}
     failed = []
